@@ -368,6 +368,18 @@ def c_manager(chk):
                    And(sym.to_sym(p.value is ws and wa[0] is eom and wa[1] is grid and wa[2] is bs), Eq(wa[3] * T0, real("wallThicknessGuess")),
                        Eq(ea[5] * T0, real("meanFreePathScale"))), func=fn)
             chk.vc(f"setupWallSolver.off-equilibrium-flag.{tag}", p.pc, sym.to_sym(eom.attrs.get("includeOffEq") is off_eq), func=fn)
+            # every configured tolerance / bound reaches the solver ("within the CONFIGURED absolute velocity tolerance"): positional or keyword
+            ek = dict(news["EOM"]["kwargs"])
+            names = ("boltzmannSolver", "thermodynamics", "hydrodynamics", "grid", "nbrFields", "meanFreePathScale", "wallThicknessBounds", "wallOffsetBounds",
+                     "includeOffEq", "forceEnergyConservation", "forceImproveConvergence", "errTol", "maxIterations", "pressRelErrTol")
+            for k_, v_ in zip(names, ea):
+                ek.setdefault(k_, v_)
+            ce = man.attrs["config"].attrs["configEOM"].attrs
+            want = {"errTol": "errTol", "maxIterations": "maxIterations", "pressRelErrTol": "pressRelErrTol", "forceEnergyConservation": "conserveEnergyMomentum",
+                    "wallThicknessBounds": "wallThicknessBounds", "wallOffsetBounds": "wallOffsetBounds"}
+            okc = all(k_ in ek and kk in ce and (ek[k_] is ce[kk] or ek[k_] == ce[kk]) for k_, kk in want.items())
+            chk.vc(f"setupWallSolver.configured-tolerances-reach-the-solver.{tag}", p.pc, sym.to_sym(bool(okc)), func=fn,
+                   meta={"missing": [k_ for k_, kk in want.items() if not (k_ in ek and kk in ce and (ek[k_] is ce[kk] or ek[k_] == ce[kk]))]})
             loads = [e for e in p.events if e.get("name") == "loadCollisions"]
             chk.vc(f"setupWallSolver.collisions-loaded-iff-requested.{tag}", p.pc, sym.to_sym((len(loads) == 1) == off_eq and all(e["obj"] is bs for e in loads)), func=fn)
     # WallGoManager.solveWall: a fresh solver, then the deflagration entry point with its initial thickness
